@@ -151,7 +151,7 @@ func genC13(r *sim.Rng, tier string) any {
 		}
 		op.Confirm = r.Bool(0.3)
 		op.Pass = hex.EncodeToString([][]byte{{}, []byte("pw"), []byte("pässwörd with spaces"), {0, 1, 2, 255, 0x80, 0xfe}, {0xff}, []byte("a\x00b")}[r.Intn(6)])
-		op.Slot = []string{"9a", "9c", "f9", "", "a-very-long-slot-name", "9ä"}[r.Intn(6)]
+		op.Slot = []string{"9a", "9c", "f9", "", "a-very-long-slot-name", "9ä", "9A", "9C", "F9", "9a "}[r.Intn(10)]
 		op.Code = r.Intn(256)
 		raw := append([]byte{[]byte{0, 2, 5, 7, 20, 21, 26, 28, 36, 40, 99, 200, 255}[r.Intn(13)]}, r.Bytes(r.Intn(64))...)
 		op.Raw = hex.EncodeToString(raw)
@@ -159,6 +159,10 @@ func genC13(r *sim.Rng, tier string) any {
 			op.Fail = failTexts[r.Intn(len(failTexts))]
 		}
 		p.Ops = append(p.Ops, op)
+		if p.Slots == "real" && op.Op == "listslots" && r.Bool(0.4) {
+			out, exit := genPivOutput(r)
+			p.Ops = append(p.Ops, WOp{Op: "pivchange", Comment: out, Code: exit}, WOp{Op: "listslots"})
+		}
 	}
 	switch r.Intn(4) {
 	case 0:
@@ -295,6 +299,7 @@ func sessionC13(t *testing.T, raw json.RawMessage) *sim.Outcome {
 	}
 	var served yubiagent.YubiAgent = st
 	var pivLog string
+	setPiv := func(string, int) {}
 	if p.Slots == "real" {
 		dir, err := os.MkdirTemp(tmpRoot(), "piv-")
 		if err != nil {
@@ -305,15 +310,20 @@ func sessionC13(t *testing.T, raw json.RawMessage) *sim.Outcome {
 		tool := filepath.Join(dir, "yubico-piv-tool")
 		pivLog = filepath.Join(dir, "invocations")
 		outFile := filepath.Join(dir, "status.out")
+		exitFile := filepath.Join(dir, "status.exit")
 		certFile := filepath.Join(dir, "cert.pem")
-		os.WriteFile(outFile, []byte(p.PivOutput), 0o644)
+		setPiv = func(out string, exit int) {
+			os.WriteFile(outFile, []byte(out), 0o644)
+			os.WriteFile(exitFile, []byte(fmt.Sprint(exit)), 0o644)
+		}
+		setPiv(p.PivOutput, p.PivExit)
 		pemBytes := pem.EncodeToMemory(&pem.Block{Type: "CERTIFICATE", Bytes: testCertDER()})
 		if p.PEMNoise {
 			pemBytes = append(append([]byte("Certificate for the slot:\n\n"), pemBytes...), []byte("\n\n  \n")...)
 		}
 		os.WriteFile(certFile, pemBytes, 0o644)
-		script := fmt.Sprintf("#!/bin/sh\necho \"$@\" >> %s\ncase \"$2\" in\n status) cat %s; exit %d;;\n read-certificate|attest) if [ \"$4\" = \"9a\" ] || [ \"$4\" = \"9c\" ]; then cat %s; exit 0; else echo 'no such slot' >&2; exit 1; fi;;\nesac\nexit 2\n",
-			pivLog, outFile, p.PivExit, certFile)
+		script := fmt.Sprintf("#!/bin/sh\necho \"$@\" >> %s\ncase \"$2\" in\n status) cat %s; exit $(cat %s);;\n read-certificate|attest) if [ \"$4\" = \"9a\" ] || [ \"$4\" = \"9c\" ]; then cat %s; exit 0; else echo 'no such slot' >&2; exit 1; fi;;\nesac\nexit 2\n",
+			pivLog, outFile, exitFile, certFile)
 		if err := os.WriteFile(tool, []byte(script), 0o755); err != nil {
 			o.Fail("harness.tmp", "tool", 0, "%v", err)
 			return o
@@ -349,6 +359,13 @@ func sessionC13(t *testing.T, raw json.RawMessage) *sim.Outcome {
 	for i, op := range p.Ops {
 		if ended {
 			break
+		}
+		if op.Op == "pivchange" {
+			// the device changes between two invocations of the tool (key generated, YubiKey pulled)
+			p.PivOutput, p.PivExit = op.Comment, op.Code
+			setPiv(p.PivOutput, p.PivExit)
+			o.Probe("piv_tool_output_changed_between_calls")
+			continue
 		}
 		nCalls := len(st.calls)
 		realSlot := p.Slots == "real" && (op.Op == "listslots" || op.Op == "readslot" || op.Op == "attestslot")
